@@ -3,6 +3,7 @@ package main
 import (
 	"bytes"
 	"math/rand"
+	"strings"
 
 	"verif/harness/internal/smf"
 )
@@ -32,9 +33,53 @@ func init() {
 				}
 				cases = append(cases, Case{"prog": randomProg(rng, maxLen, 0.25, 7), "maxKeys": maxKeys, "seed": rng.Int63()})
 			}
+			// pieces that open with many rests (more AST nodes than the classifier's channel holds before the first chord)
+			for _, nr := range []int{34, 40, 67} {
+				p := []PItem{}
+				for i := 0; i < nr; i++ {
+					p = append(p, PItem{Rest: true, Vals: one()})
+				}
+				p = append(p, randomProg(rng, 6, 0.2, 7)...)
+				cases = append(cases, Case{"prog": p, "maxKeys": 3, "seed": rng.Int63()})
+			}
+			// note-name texts written directly, from a small pool of spellings that recur before and after key changes
+			ns := 80
+			if !c.quick() {
+				ns = 1500
+			}
+			families := []struct {
+				keys  []string
+				notes []string
+			}{{[]string{"C", "Am", "G", "Em"}, []string{"C", "D", "E", "G", "A", "B"}}, {[]string{"C", "F", "Dm", "Am"}, []string{"C", "D", "E", "F", "G", "A"}},
+				{[]string{"Eb", "Cm", "Bb", "Gm"}, []string{"Eb", "F", "G", "Bb", "C", "D"}}}
+			for i := 0; i < ns; i++ {
+				fam := families[rng.Intn(len(families))]
+				var sb strings.Builder
+				n := 4 + rng.Intn(14)
+				for j := 0; j < n; j++ {
+					if rng.Intn(6) == 0 {
+						sb.WriteString("R[1]")
+					} else {
+						sb.WriteString(fam.notes[rng.Intn(len(fam.notes))] + []string{"", "", "m", "_7", "maj7"}[rng.Intn(5)])
+						if rng.Intn(4) == 0 {
+							sb.WriteString("/" + fam.notes[rng.Intn(len(fam.notes))])
+						}
+						sb.WriteString("[1]")
+					}
+					if j > 0 && rng.Intn(4) == 0 {
+						sb.WriteString("{key=" + fam.keys[rng.Intn(len(fam.keys))] + "}")
+					}
+					sb.WriteString(" ")
+				}
+				cases = append(cases, Case{"syltext": sb.String(), "key": fam.keys[rng.Intn(len(fam.keys))]})
+			}
 			return cases
 		},
 		Exec: func(c *Ctx, k Case) []Rec {
+			if t := cs(k, "syltext"); t != "" {
+				r, _ := convRec(c, "syllable", cs(k, "key"), t+"\n")
+				return []Rec{{"kind": "syl", "sub": "syl", "x": r}}
+			}
 			var p []PItem
 			remarshal(k["prog"], &p)
 			rng := rand.New(rand.NewSource(int64(ci(k, "seed"))))
